@@ -320,7 +320,7 @@ fn c09_config_persist_big_siblings() {
 
 // ---- reload of the aborted set at open: concrete bitmap, the real 8192-iteration scan ---------------------------
 // (symbolic data would make every iteration a conditional Vec push; with a concrete bitmap CBMC simply executes the loop)
-// @obl harness=c09_reload_concrete id=C09.aborted_reload[concrete_ids_0,7,8,1023,4095,8191] also=C02 tier=quick funcs="PageZeroHeader::get_aborted_transactions,PageZeroHeader::mark_transaction_aborted" bounds="zeroed header, ids {0,7,8,1023,4095,8191} marked (first/last bit of a byte, first/last byte): the scan returns exactly these, ascending" unwind=8195 native=c09_aborted_reload
+// @obl harness=c09_reload_concrete id=C09.aborted_reload[concrete_ids_0,7,8,1023,4095,8191] also=C02,C04 tier=quick funcs="PageZeroHeader::get_aborted_transactions,PageZeroHeader::mark_transaction_aborted" bounds="zeroed header, ids {0,7,8,1023,4095,8191} marked (first/last bit of a byte, first/last byte): the scan returns exactly these, ascending" unwind=8195 native=c09_aborted_reload
 #[kani::proof]
 #[kani::unwind(8195)]
 fn c09_reload_concrete() {
